@@ -103,7 +103,7 @@ class Interp:
 
     # -- helpers ---------------------------------------------------------------------------
     def fail(self, node, what):
-        raise AnalysisError(f"C02 vocabulary exceeded: {what}: `{norm(node)[:90]}` (line {getattr(node, 'lineno', '?')})")
+        raise AnalysisError(f"abstract interpreter vocabulary exceeded: {what}: `{norm(node)[:90]}` (line {getattr(node, 'lineno', '?')})")
 
     def tick(self, node):
         self.steps += 1
